@@ -156,6 +156,10 @@ class EFLRItem:
         if isinstance(getattr(self, key, None), Attribute):
             raise RuntimeError(f"Cannot set DLIS Attribute '{key}'. Did you mean setting '{key}.value' instead?")
 
+        if key in ('name', '_origin_reference', '_copy_number'):
+            # identity of the item changes: the memoised OBNAME bytes (see 'obname' below) are no longer valid
+            self.__dict__.pop('obname', None)
+
         return super().__setattr__(key, value)
 
     @cached_property
